@@ -302,6 +302,35 @@ class H2(_QuadCase):
                 Ob.eq("... and equal to a bath built from an equal, never updated object", after, exp, key="unaffected_fresh")]
 
 
+class H2getter(_QuadCase):
+    """what the Bath getters hand out are copies: updating them does not reach the bath"""
+    functions = ("bath.Bath.correlations", "bath.Bath.coupling_operator", "bath.Bath.unitary_transform")
+    id = "H2/bath_getters_return_copies"
+    bounds = {"class": "CustomSD"}
+
+    def __init__(self):
+        self._setup()
+
+    def run(self, inp):
+        P = Par(inp, robust=True)
+        self._quad(inp)
+        bath = oqupy.Bath(np.array([[0.5, 0.0], [0.0, -0.5]]), P.build("sd"))
+        before = P.call(bath.correlations, "correlation")
+        c = bath.correlations
+        c.temperature = P.T2
+        after = P.call(bath.correlations, "correlation")
+        obs = [Ob.eq("bath.correlations.correlation unaffected by an update of a handed-out correlations object", after, before)]
+        for name in ("coupling_operator", "unitary_transform", "coupling_comm", "coupling_acomm"):
+            a = getattr(bath, name)
+            ref = np.array(a)
+            try:
+                a[...] = 7.0
+            except ValueError:
+                pass
+            obs.append(Ob.eq("bath.%s unaffected by a write into the handed-out array" % name, getattr(bath, name), ref))
+        return obs
+
+
 # --------------------------------------------------------------------------
 # H3 layouts
 # --------------------------------------------------------------------------
@@ -643,7 +672,7 @@ def cases(tier):
         h2 += [("sd", "j_function", "spectral_density"), ("sd", "cutoff_type", "spectral_density"), ("pl", "zeta", "spectral_density"),
                ("pl", "cutoff", "correlation"), ("pl", "temperature", "eta_function"), ("sd", "cutoff", "eta_function"),
                ("pl", "alpha", "attribute")]
-    cs += [H2(*a) for a in h2]
+    cs += [H2(*a) for a in h2] + [H2getter()]
     # H3
     for lay in LAYOUTS:
         cs.append(H3dyn(lay))
